@@ -158,6 +158,8 @@ class FitProblem:
                 vals = list(UNBOUNDED_LEVELS)
             else:
                 vals = [lo + (hi - lo) * q for q in QUANTILES]
+                if lo < 0.0 < hi:
+                    vals.append(0.0)   # a series expansion takes over around 0 (Box-Cox lambda): its derivative counts too
         else:
             vals = [lo ** (1 - q) * hi ** q for q in QUANTILES]
         return [float(np.asarray(enc.decode(v, "level")).reshape(-1)[0]) for v in vals]
